@@ -165,6 +165,9 @@ func verifStoreOf(f *fileStore) *VerifStore {
 	return nil
 }
 
+// VerifSetLastKey puts the store's row id counter at v (a state that only billions of rows reach otherwise).
+func VerifSetLastKey(rs *RelationService, v uint32) { rs.fs.lastKey = v }
+
 // VerifSetCacheCap changes the page-cache capacity given to stores created from now on (0 = the real value).
 func VerifSetCacheCap(n int) { verifCacheCap = n }
 
